@@ -35,7 +35,13 @@ class C15(SCheck):
         if r.random() < 0.3:
             ops.append(gen.d_op("src/sub"))
             ops.append(gen.f_op("src/sub/g", 100, pat=5))
-        inv = gen.mk_inv(["src"], "dst", driver=driver, workers=workers, block_size=bs, r=True, reflink=mode)
+        dest = "dst"
+        if answer == "native" and r.random() < 0.6:
+            # destination on a second file system: the real kernel answers the clone request with EXDEV
+            ops.append(gen.mount_op("vol"))
+            dest = "vol/dst"
+        inv = gen.mk_inv(["src"], dest, driver=driver, workers=workers, block_size=bs, r=True, reflink=mode)
+        gen.swarm_flags(r, inv["flags"], allow=("fsync", "no_perms", "no_timestamps", "no_progress"))
         kernel = {"ficlone": answer}
         if r.random() < 0.3:
             kernel["fiemap"] = "emulate"
@@ -62,7 +68,7 @@ class C15(SCheck):
                 continue
             if ev["c"] == "ioctl" and ev.get("req") == "FICLONE":
                 per.setdefault(o, []).append(("clone", ev))
-            elif ev["c"] in ("copy_file_range", "pwrite64", "write", "writev", "sendfile") and not str(ev.get("r")).startswith("-") and ev.get("fdp", "").startswith("dst"):
+            elif ev["c"] in ("copy_file_range", "pwrite64", "write", "writev", "sendfile") and not str(ev.get("r")).startswith("-") and ev.get("fdp", "").startswith(("dst", "vol/dst")):
                 per.setdefault(o, []).append(("data", ev))
         any_clone = any(k == "clone" for v in per.values() for k, _ in v)
         if mode == "never" and any_clone:
